@@ -1730,6 +1730,7 @@ static struct {
     int replace_kind;
     int replaced;    /* atomic */
 } g_jm;
+static int c_jm_replace2;
 static int c_jmscen, c_jm_multi, c_jm_replace, c_jm_revive, c_jm_units;
 static void jm_unit(void *arg)
 {
@@ -1752,6 +1753,26 @@ static void jm_replacer(void *arg)
     __atomic_store_n(&g_jm.replaced, 1, __ATOMIC_SEQ_CST);
     __atomic_fetch_add((int *)arg, 1, __ATOMIC_SEQ_CST);
 }
+/* variant 3: two units of the stream replace its main scheduler one right after
+ * the other, each with a scheduler whose first pool is a pool of its own */
+typedef struct {
+    int *ran;
+    ABT_pool first;
+    int kind;
+} jm_rep2_t;
+static void jm_replacer2(void *arg)
+{
+    jm_rep2_t *a = (jm_rep2_t *)arg;
+    ABT_xstream xs;
+    ABT_pool pools[4];
+    int n = 0;
+    pools[n++] = a->first;
+    for (int i = 0; i < g_jm.npools; i++)
+        pools[n++] = g_jm.pools[i];
+    VRT_ABT(ABT_self_get_xstream(&xs));
+    VRT_ABT(ABT_xstream_set_main_sched_basic(xs, (ABT_sched_predef)a->kind, n, pools));
+    __atomic_fetch_add(a->ran, 1, __ATOMIC_SEQ_CST);
+}
 static void *jm_joiner(void *arg)
 {
     ABT_xstream xs = (ABT_xstream)arg;
@@ -1771,7 +1792,8 @@ static void run_joinmix(vrt_rng *r, int idx)
     int kind = pk[vrt_range(r, 3)], sched = sp[vrt_range(r, 4)];
     if (sched == ABT_SCHED_BASIC_WAIT)
         kind = ABT_POOL_FIFO_WAIT;
-    int variant = (int)vrt_range(r, 3); /* 0 multi-pool join, 1 join overlapping replacement, 2 join-revive-join */
+    /* 0 multi-pool join, 1 join overlapping replacement, 2 join-revive-join, 3 two replacements back to back */
+    int variant = (int)vrt_range(r, 4);
     /* a pool shared by the victim and a helper stream, listed first, normally
      * empty; then 1-2 private pools */
     ABT_pool shared, priv[2];
@@ -1808,6 +1830,19 @@ static void run_joinmix(vrt_rng *r, int idx)
     } else if (variant == 0) {
         vrt_count(c_jm_multi, 1);
     }
+    ABT_pool own[2] = { ABT_POOL_NULL, ABT_POOL_NULL };
+    static jm_rep2_t rep2[2];
+    if (variant == 3) {
+        for (int k = 0; k < 2; k++) {
+            VRT_ABT(ABT_pool_create_basic((ABT_pool_kind)kind, ABT_POOL_ACCESS_MPMC, ABT_FALSE, &own[k]));
+            rep2[k].ran = &g_jm.ran[n + k];
+            rep2[k].first = own[k];
+            rep2[k].kind = rp[vrt_range(r, 2)];
+            VRT_ABT(ABT_thread_create(priv[0], jm_replacer2, &rep2[k], ABT_THREAD_ATTR_NULL, NULL));
+        }
+        nrep = 2;
+        vrt_count(c_jm_replace2, 1);
+    }
     VRT_ABT(ABT_xstream_create_basic((ABT_sched_predef)sched, g_jm.npools, g_jm.pools, ABT_SCHED_CONFIG_NULL, &victim));
     if (vrt_range(r, 2))
         vrt_sleep_us((unsigned)vrt_range(r, 200));
@@ -1821,7 +1856,7 @@ static void run_joinmix(vrt_rng *r, int idx)
                           "ABT_xstream_join returned, but unit %d of %d in a pool only this stream schedules ran %d times "
                           "(variant %d: %s; scheduler %s over %d pools, shared pool listed %s)", i, n + nrep, g_jm.ran[i],
                           variant, variant == 0 ? "multi-pool" : variant == 1 ? "replacement after the join was issued"
-                                                                              : "join-revive-join",
+                                      : variant == 2 ? "join-revive-join" : "two replacements back to back",
                           w_sched_name(sched), g_jm.npools, shared_first ? "first" : "last");
             break;
         }
@@ -1860,6 +1895,9 @@ static void run_joinmix(vrt_rng *r, int idx)
     if (vrt_num_violations())
         return;
     VRT_ABT(ABT_xstream_free(&victim));
+    for (int k = 0; k < 2; k++)
+        if (own[k] != ABT_POOL_NULL)
+            VRT_ABT(ABT_pool_free(&own[k]));
     VRT_ABT(ABT_xstream_join(helper));
     VRT_ABT(ABT_xstream_free(&helper));
     VRT_ABT(ABT_pool_free(&shared));
@@ -1871,7 +1909,7 @@ static void run_joinmix(vrt_rng *r, int idx)
                    "listed %s), %d units queued in its private pools, variant %s", idx, w_sched_name(sched), g_jm.npools,
                    w_pool_kind_name(kind), shared_first ? "first" : "last", n,
                    variant == 0 ? "join at once" : variant == 1 ? "main scheduler replaced by a unit after the join was issued"
-                                                                : "join, revive, idle, new work, join");
+                   : variant == 2 ? "join, revive, idle, new work, join" : "two units replace the main scheduler back to back");
     vrt_signature_add("jm:%s,%s,p%d,s%d,v%d", w_sched_name(sched), w_pool_kind_name(kind), g_jm.npools, shared_first, variant);
     vrt_count(c_jm_units, (uint64_t)n);
     vrt_count(c_jmscen, 1);
@@ -3518,6 +3556,7 @@ int main(int argc, char **argv)
         c_jmscen = vrt_counter("joinmix_scenarios");
         c_jm_multi = vrt_counter("joinmix_multi_pool_joins");
         c_jm_replace = vrt_counter("joinmix_joins_overlapping_sched_replacement");
+        c_jm_replace2 = vrt_counter("joinmix_two_replacements_back_to_back");
         c_jm_revive = vrt_counter("joinmix_revive_idle_work_join_rounds");
         c_jm_units = vrt_counter("joinmix_units");
         int n = (int)vrt_arg_int("scenarios", 60);
